@@ -96,8 +96,8 @@ void do_plan(int tier)
     c.itype = (int)sim_plan(8);
     if ((c.api == C01_BLOCKS_WIDE || (c.api == C01_BLOCKS && !c01_small_index_blocks())) && c.itype < 2)
       c.itype = 2 + (int)sim_plan(6);
-    static const int blocks[] = {1, 3, 16, 64};
-    c.block = blocks[sim_plan(4)];
+    static const int blocks[] = {1, 3, 16, 64, 300};
+    c.block = blocks[sim_plan(5)];
     bool foreach_api = c.api == C01_FOREACH_CONT || c.api == C01_FOREACH_IT || c.api == C01_FOREACH_DEQUE;
     c.count = pick_count(foreach_api ? 7 : c.itype, nth, tier, !foreach_api, false);
     if (foreach_api && c.count == 0)
@@ -118,7 +118,7 @@ void do_plan(int tier)
       unsigned ia = sim_plan(4);
       c.inner_api = ia < 2 ? C01_FOR : (ia == 2 ? C01_FOREACH_CONT : C01_BLOCKS);
       c.inner_itype = c01_small_index_blocks() ? (int)sim_plan(8) : 2 + (int)sim_plan(6);
-      c.inner_block = blocks[sim_plan(4)];
+      c.inner_block = blocks[sim_plan(5)];
       c.inner_count = pick_count(c.inner_itype, nth, tier, c.inner_api != C01_FOREACH_CONT, true);
       if (c.inner_api == C01_FOREACH_CONT && c.inner_count <= 0)
         c.inner_count = 2;
